@@ -373,3 +373,65 @@ from contracts.c04_value_specs import SchemaIsCompatible as _SchemaIsCompatible 
 @register
 class SchemaCompatibilityIsByKey(_SchemaIsCompatible):
   prop = 'C03'
+
+
+# ---------------------------------------------------------------------------
+# Dict.popitem on a dict WITH a value spec is refused outright (ValueError,
+# nothing removed): which key it would remove is decided by insertion order, so
+# it could take out a required key.  Without a value spec it removes exactly
+# the pair the C-level popitem hands out.
+
+@register
+class DictPopItemTyped(Contract):
+  prop = 'C03'
+  target = f'{SD}:Dict.popitem'
+  exc_class_has_value_spec = ValueError
+  raises = {KeyError: ()}
+  pure = (f'{SB}:Symbolic.sym_path', f'{SB}:Symbolic._error_message', f'{SB}:Symbolic._notify_field_updates',
+          'pyglove.core.symbolic.flags:is_change_notification_enabled')
+
+  def inputs(self, b):
+    self._spec = b.choice('value_spec_kind', [None, SObj(pg.typing.Dict, {}, name='value_spec')])
+    s = SObj(pg.Dict, {'_value_spec': self._spec}, name='self')
+    return dict(self=s), {}
+
+  def setup_policy(self, policy):
+    policy.handlers[id(base.treats_as_sealed)] = lambda interp, a, k, f: False
+    policy.handlers[('truth', pg.typing.Dict)] = lambda interp, v: True
+
+    def c_popitem(interp, args, kwargs, frame):
+      interp.path.event('payload-write', 'dict.popitem', None)
+      return ('k', SAny('popped'))
+    policy.handlers[('cmethod', dict, 'popitem')] = c_popitem
+    policy.handlers[('new', base.FieldUpdate)] = lambda interp, a, k, f: SAny('FieldUpdate')
+    policy.handlers[('new', pg.KeyPath)] = lambda interp, a, k, f: SAny('KeyPath')
+    policy.contracts[f'{SB}:Symbolic.sym_setparent'] = lambda interp, frame, args, kwargs: None
+    policy.contracts[f'{SB}:Symbolic.sym_setpath'] = lambda interp, frame, args, kwargs: None
+
+  def exc_iff_has_value_spec(self, self_):
+    return self_._value_spec is not None
+
+  def trace_refused_call_removes_nothing(self, events, outcome, interp, env):
+    writes = [e for e in events if e.kind == 'payload-write']
+    if outcome[0] == 'raise':
+      return not writes
+    return len(writes) == 1
+
+  def small_models(self):
+    from pyvc.contracts import Model
+    yield Model({}, {})
+
+  def replay(self, obligation, m):
+    t = pg.typing
+    bad = []
+    for name, spec_ in (('required + pattern keys', t.Dict([('f', t.Int()), (t.StrKey(), t.Int())])),
+                        ('declared keys only', t.Dict([('f', t.Int()), ('g', t.Int(default=1))]))):
+      d = pg.Dict(f=1, value_spec=spec_)
+      before = dict(d.sym_items())
+      try:
+        d.popitem()
+        bad.append(f'{name}: popitem() on a typed dict succeeded; contents {before!r} -> {dict(d.sym_items())!r}')
+      except ValueError:
+        if dict(d.sym_items()) != before:
+          bad.append(f'{name}: popitem() raised but changed the dict')
+    return dict(outcome='reproduced' if bad else 'not-reproduced', detail='; '.join(bad) or 'refused, nothing removed')
